@@ -707,6 +707,218 @@ Qed.
 
 End Blocking.
 
+(** ** Blocking semantics: no reachable deadlock, every run is finite *)
+
+Lemma ckind_eqb_eq : forall a b, ckind_eqb a b = true -> a = b.
+Proof.
+  intros [|x|x|] [|y|y|]; simpl; intros H; try reflexivity; try discriminate;
+    apply Nat.eqb_eq in H; subst; reflexivity.
+Qed.
+
+Section Confluence.
+Variable col : colouring.
+Variable P : nat.
+
+Definition state_eq (st st' : nat -> list event) : Prop := forall r, st r = st' r.
+Definition finished (st : nat -> list event) : Prop := forall r, r < P -> st r = [].
+
+Lemma members_lt : forall cm r, In r (members col P cm) -> r < P.
+Proof.
+  intros [|c] r H; simpl in H; [|apply filter_In in H; destruct H as [H _]]; apply in_seq in H; lia.
+Qed.
+
+Lemma heads_agree_spec : forall ms cm st k, heads_agree ms cm st = Some k ->
+  ms <> [] /\ forall r, In r ms -> exists rest, st r = (cm, k) :: rest.
+Proof.
+  intros ms cm st k H. destruct ms as [|r0 ms']; [discriminate|]. split; [discriminate|].
+  unfold heads_agree in H. destruct (st r0) as [|[cm0 k0] t] eqn:E0; [discriminate|].
+  match type of H with (if ?c then _ else _) = _ => destruct c eqn:Hc end; [|discriminate].
+  inversion H. subst k0. apply andb_prop in Hc. destruct Hc as [_ Hall].
+  rewrite forallb_forall in Hall. intros r Hr. specialize (Hall r Hr).
+  destruct (st r) as [|[cm' k'] t']; [discriminate|]. apply andb_prop in Hall. destruct Hall as [H1 H2].
+  apply commid_eqb_eq in H1. apply ckind_eqb_eq in H2. subst. eexists. reflexivity.
+Qed.
+
+(** a step on cm: what it needs and what it does *)
+Lemma coll_step_spec : forall cm st s, coll_step col P cm st = Some s ->
+  members col P cm <> [] /\
+  (exists k, forall r, In r (members col P cm) -> exists rest, st r = (cm, k) :: rest) /\
+  (forall r, In r (members col P cm) -> s r = tl (st r)) /\
+  (forall r, ~ In r (members col P cm) -> s r = st r).
+Proof.
+  intros cm st s H. unfold coll_step in H. destruct (heads_agree (members col P cm) cm st) as [k|] eqn:Hh; [|discriminate].
+  apply heads_agree_spec in Hh. destruct Hh as [Hne Hall]. inversion H. subst s. clear H.
+  split; [exact Hne|]. split; [exists k; exact Hall|]. split.
+  - intros r Hr. rewrite (proj2 (existsb_eqb_In r _) Hr). reflexivity.
+  - intros r Hr. destruct (existsb (Nat.eqb r) (members col P cm)) eqn:E; [|reflexivity].
+    apply existsb_eqb_In in E. contradiction.
+Qed.
+
+Lemma coll_step_enabled : forall cm st k, members col P cm <> [] ->
+  (forall r, In r (members col P cm) -> exists rest, st r = (cm, k) :: rest) ->
+  exists s, coll_step col P cm st = Some s.
+Proof.
+  intros cm st k Hne H. unfold coll_step. rewrite (heads_agree_all (members col P cm) cm st k Hne H).
+  eexists. reflexivity.
+Qed.
+
+(** two different communicators that can both proceed have no rank in common, the steps commute *)
+Lemma coll_step_diamond : forall cm1 cm2 st s1 s2, cm1 <> cm2 ->
+  coll_step col P cm1 st = Some s1 -> coll_step col P cm2 st = Some s2 ->
+  exists s12 s21, coll_step col P cm2 s1 = Some s12 /\ coll_step col P cm1 s2 = Some s21 /\ state_eq s12 s21.
+Proof.
+  intros cm1 cm2 st s1 s2 Hne H1 H2.
+  destruct (coll_step_spec _ _ _ H1) as [Hne1 [[k1 Hk1] [Hin1 Hout1]]].
+  destruct (coll_step_spec _ _ _ H2) as [Hne2 [[k2 Hk2] [Hin2 Hout2]]].
+  assert (Hdisj : forall r, In r (members col P cm1) -> In r (members col P cm2) -> False).
+  { intros r Hr1 Hr2. destruct (Hk1 r Hr1) as [t1 E1]. destruct (Hk2 r Hr2) as [t2 E2].
+    rewrite E1 in E2. inversion E2. contradiction. }
+  destruct (coll_step_enabled cm2 s1 k2 Hne2) as [s12 H12].
+  { intros r Hr. rewrite Hout1 by (intro Hr1; exact (Hdisj r Hr1 Hr)). apply Hk2. exact Hr. }
+  destruct (coll_step_enabled cm1 s2 k1 Hne1) as [s21 H21].
+  { intros r Hr. rewrite Hout2 by (intro Hr2; exact (Hdisj r Hr Hr2)). apply Hk1. exact Hr. }
+  exists s12, s21. split; [exact H12|]. split; [exact H21|].
+  destruct (coll_step_spec _ _ _ H12) as [_ [_ [Hin12 Hout12]]].
+  destruct (coll_step_spec _ _ _ H21) as [_ [_ [Hin21 Hout21]]].
+  intros r.
+  destruct (in_dec Nat.eq_dec r (members col P cm1)) as [Hr1|Hr1];
+    destruct (in_dec Nat.eq_dec r (members col P cm2)) as [Hr2|Hr2].
+  - exfalso. exact (Hdisj r Hr1 Hr2).
+  - rewrite (Hout12 r Hr2), (Hin1 r Hr1), (Hin21 r Hr1), (Hout2 r Hr2). reflexivity.
+  - rewrite (Hin12 r Hr2), (Hout1 r Hr1), (Hout21 r Hr1), (Hin2 r Hr2). reflexivity.
+  - rewrite (Hout12 r Hr2), (Hout1 r Hr1), (Hout21 r Hr1), (Hout2 r Hr2). reflexivity.
+Qed.
+
+(** steps and runs only look at the values of the state *)
+Lemma coll_step_ext : forall cm st st' s, state_eq st st' -> coll_step col P cm st = Some s ->
+  exists s', coll_step col P cm st' = Some s' /\ state_eq s s'.
+Proof.
+  intros cm st st' s He H. destruct (coll_step_spec _ _ _ H) as [Hne [[k Hk] [Hin Hout]]].
+  destruct (coll_step_enabled cm st' k Hne) as [s' H'].
+  { intros r Hr. rewrite <- He. apply Hk. exact Hr. }
+  exists s'. split; [exact H'|]. destruct (coll_step_spec _ _ _ H') as [_ [_ [Hin' Hout']]].
+  intros r. destruct (in_dec Nat.eq_dec r (members col P cm)) as [Hr|Hr].
+  - rewrite (Hin r Hr), (Hin' r Hr), He. reflexivity.
+  - rewrite (Hout r Hr), (Hout' r Hr), He. reflexivity.
+Qed.
+
+Lemma coll_run_ext : forall sched st st' fin, state_eq st st' -> coll_run col P sched st = Some fin ->
+  exists fin', coll_run col P sched st' = Some fin' /\ state_eq fin fin'.
+Proof.
+  intros sched. induction sched as [|cm sched IH]; intros st st' fin He H.
+  - simpl in H. inversion H. subst fin. exists st'. split; [reflexivity|exact He].
+  - simpl in H. destruct (coll_step col P cm st) as [s|] eqn:Hs; [|discriminate].
+    destruct (coll_step_ext cm st st' s He Hs) as [s' [Hs' He']].
+    destruct (IH s s' fin He' H) as [fin' [Hr Hf]]. exists fin'. split; [|exact Hf].
+    simpl. rewrite Hs'. exact Hr.
+Qed.
+
+Definition completable (st : nat -> list event) : Prop :=
+  exists sched fin, coll_run col P sched st = Some fin /\ finished fin.
+
+(** the heart of the matter: a state that can be completed can still be completed after ANY enabled step *)
+Lemma completable_step : forall sched st fin, coll_run col P sched st = Some fin -> finished fin ->
+  forall cm st1, coll_step col P cm st = Some st1 -> completable st1.
+Proof.
+  intros sched. induction sched as [|c sched IH]; intros st fin Hrun Hfin cm st1 Hstep.
+  - simpl in Hrun. inversion Hrun. subst fin. exfalso.
+    destruct (coll_step_spec _ _ _ Hstep) as [Hne [[k Hk] _]].
+    destruct (members col P cm) as [|r0 ms] eqn:Em; [congruence|].
+    assert (Hr0 : In r0 (members col P cm)) by (rewrite Em; left; reflexivity).
+    destruct (Hk r0 ltac:(rewrite <- Em; exact Hr0)) as [rest E].
+    rewrite (Hfin r0 (members_lt cm r0 Hr0)) in E. discriminate.
+  - simpl in Hrun. destruct (coll_step col P c st) as [sc|] eqn:Hc; [|discriminate].
+    destruct (commid_eqb c cm) eqn:Ecm.
+    + apply commid_eqb_eq in Ecm. subst c. rewrite Hc in Hstep. inversion Hstep. subst st1.
+      exists sched, fin. split; assumption.
+    + assert (Hne : c <> cm) by (intro E; subst c; rewrite commid_eqb_refl in Ecm; discriminate).
+      destruct (coll_step_diamond c cm st sc st1 Hne Hc Hstep) as [s12 [s21 [H12 [H21 He]]]].
+      destruct (IH sc fin Hrun Hfin cm s12 H12) as [sched' [fin' [Hrun' Hfin']]].
+      destruct (coll_run_ext sched' s12 s21 fin' He Hrun') as [fin'' [Hrun'' He'']].
+      exists (c :: sched'), fin''. split.
+      * simpl. rewrite H21. exact Hrun''.
+      * intros r Hr. rewrite <- He''. apply Hfin'. exact Hr.
+Qed.
+
+(** hence every state reachable from a completable one is completable, and is either finished or has an enabled step *)
+Theorem reachable_completable : forall pre st0 st, completable st0 -> coll_run col P pre st0 = Some st ->
+  completable st /\ (finished st \/ exists cm st', coll_step col P cm st = Some st').
+Proof.
+  intros pre. induction pre as [|cm pre IH]; intros st0 st Hc Hrun.
+  - simpl in Hrun. inversion Hrun. subst st. split; [exact Hc|].
+    destruct Hc as [[|c sched] [fin [Hr Hf]]].
+    + simpl in Hr. inversion Hr. subst fin. left. exact Hf.
+    + right. simpl in Hr. destruct (coll_step col P c st0) as [s|] eqn:Hs; [|discriminate]. exists c, s. exact Hs.
+  - simpl in Hrun. destruct (coll_step col P cm st0) as [s|] eqn:Hs; [|discriminate].
+    apply (IH s st); [|exact Hrun]. destruct Hc as [sched [fin [Hr Hf]]].
+    apply (completable_step sched st0 fin Hr Hf cm s Hs).
+Qed.
+
+(** every successful step consumes at least one event of a rank < P: runs are finite *)
+Definition remaining (st : nat -> list event) : nat := list_sum (map (fun r => length (st r)) (seq 0 P)).
+
+Lemma list_sum_lt : forall (f g : nat -> nat) l r0, In r0 l -> (forall r, In r l -> g r <= f r) -> g r0 < f r0 ->
+  list_sum (map g l) < list_sum (map f l).
+Proof.
+  intros f g l r0. induction l as [|x l IH]; intros Hin Hle Hlt; [destruct Hin|]. simpl.
+  assert (Hl : list_sum (map g l) <= list_sum (map f l)).
+  { clear IH Hin. induction l as [|y l IHl]; [simpl; lia|]. simpl.
+    assert (g y <= f y) by (apply Hle; right; left; reflexivity).
+    assert (list_sum (map g l) <= list_sum (map f l)).
+    { apply IHl. intros r Hr. apply Hle. destruct Hr as [->|Hr]; [left; reflexivity|right; right; exact Hr]. }
+    lia. }
+  destruct Hin as [->|Hin].
+  - lia.
+  - assert (g x <= f x) by (apply Hle; left; reflexivity).
+    assert (list_sum (map g l) < list_sum (map f l)).
+    { apply IH; [exact Hin| |exact Hlt]. intros r Hr. apply Hle. right. exact Hr. }
+    lia.
+Qed.
+
+Lemma coll_step_decreases : forall cm st s, coll_step col P cm st = Some s -> remaining s < remaining st.
+Proof.
+  intros cm st s H. destruct (coll_step_spec _ _ _ H) as [Hne [[k Hk] [Hin Hout]]].
+  destruct (members col P cm) as [|r0 ms] eqn:Em; [congruence|].
+  assert (Hr0 : In r0 (members col P cm)) by (rewrite Em; left; reflexivity).
+  rewrite <- Em in *.
+  unfold remaining. apply list_sum_lt with (r0 := r0).
+  - apply in_seq. assert (Hlt := members_lt cm r0 Hr0). lia.
+  - intros r _. destruct (in_dec Nat.eq_dec r (members col P cm)) as [Hr|Hr].
+    + rewrite (Hin r Hr). destruct (st r); simpl; lia.
+    + rewrite (Hout r Hr). lia.
+  - rewrite (Hin r0 Hr0). destruct (Hk r0 Hr0) as [rest E]. rewrite E. simpl. lia.
+Qed.
+
+Theorem run_length_bounded : forall sched st fin, coll_run col P sched st = Some fin ->
+  length sched + remaining fin <= remaining st.
+Proof.
+  intros sched. induction sched as [|cm sched IH]; intros st fin H.
+  - simpl in H. inversion H. subst. simpl. lia.
+  - simpl in H. destruct (coll_step col P cm st) as [s|] eqn:Hs; [|discriminate].
+    assert (H1 := coll_step_decreases cm st s Hs). assert (H2 := IH s fin H). simpl. lia.
+Qed.
+
+End Confluence.
+
+(** C06 termination, collective part, at full strength: with the repaired barrier, whatever the order in which
+    communicators get to proceed ("any timing"), computeAll_split never reaches a state in which some rank still has
+    a collective to issue and nothing can proceed; every such run has at most as many steps as there are events;
+    and from every reachable state the run can be completed. *)
+Theorem split_no_deadlock : forall fx col P comps clear jm, fix_barrier fx = true -> 1 <= P ->
+  forall pre st, coll_run col P pre (split_trace fx col P comps clear jm) = Some st ->
+  completable col P st /\
+  (finished P st \/ exists cm st', coll_step col P cm st = Some st') /\
+  length pre <= remaining P (split_trace fx col P comps clear jm).
+Proof.
+  intros fx col P comps clear jm Hf HP pre st Hrun.
+  assert (Hc : completable col P (split_trace fx col P comps clear jm)).
+  { destruct (split_run_completes col P fx comps clear jm Hf HP) as [sched [fin [H1 H2]]].
+    exists sched, fin. split; assumption. }
+  destruct (reachable_completable col P pre _ st Hc Hrun) as [H1 H2].
+  split; [exact H1|]. split; [exact H2|].
+  assert (H3 := run_length_bounded col P pre _ st Hrun). lia.
+Qed.
+
 (** ** Where the data is afterwards *)
 
 Lemma filter_split : forall A (h f1 f2 : A -> bool) l,
@@ -875,6 +1087,62 @@ Proof.
   assert (Hlt : jmk p <? P = true) by (apply Nat.ltb_lt; apply Hjm; exact Hp). rewrite Hlt. reflexivity.
 Qed.
 
+(** the same for every entry point whose trace is the same on all ranks and touches only the communicator passed
+    in: unsplit container computation, a single TwoParticleGF::compute, Hamiltonian::prepare / compute --
+    for ANY variant of the code (on the world communicator the original barrier is the right one) *)
+Theorem uniform_no_deadlock : forall col P (trace : nat -> list event) t, 1 <= P ->
+  (forall r, trace r = t) -> on_comm World t ->
+  forall pre st, coll_run col P pre trace = Some st ->
+  completable col P st /\
+  (finished P st \/ exists cm st', coll_step col P cm st = Some st') /\
+  length pre <= remaining P trace.
+Proof.
+  intros col P trace t HP Hu Hon pre st Hrun.
+  assert (HneW : members col P World <> []).
+  { simpl. destruct P; [lia|]. simpl. discriminate. }
+  assert (Hc : completable col P trace).
+  { destruct (run_block col P World (map snd t) trace (fun _ => []) HneW) as [fin [H1 [H2 _]]].
+    { intros r _. rewrite app_nil_r, Hu. apply on_comm_map_pair. exact Hon. }
+    exists (repeat World (length (map snd t))), fin. split; [exact H1|].
+    intros r Hr. apply H2. simpl. apply in_seq. lia. }
+  destruct (reachable_completable col P pre _ st Hc Hrun) as [H1 H2].
+  split; [exact H1|]. split; [exact H2|].
+  assert (H3 := run_length_bounded col P pre _ st Hrun). lia.
+Qed.
+
+Lemma gf2_compute_world_on : forall fx clear c jmk, on_comm World (gf2_compute fx World clear c jmk).
+Proof. intros fx clear c jmk e H. apply gf2_compute_comms in H. destruct H; assumption. Qed.
+
+Theorem nosplit_no_deadlock : forall fx col P comps clear jm, 1 <= P ->
+  forall pre st, coll_run col P pre (nosplit_trace fx comps clear jm) = Some st ->
+  completable col P st /\
+  (finished P st \/ exists cm st', coll_step col P cm st = Some st') /\
+  length pre <= remaining P (nosplit_trace fx comps clear jm).
+Proof.
+  intros fx col P comps clear jm HP. apply uniform_no_deadlock with (t := nosplit_trace fx comps clear jm 0); [exact HP|reflexivity|].
+  intros e H. unfold nosplit_trace in H. apply in_flat_map in H. destruct H as [kc [_ H]].
+  apply gf2_compute_world_on in H. exact H.
+Qed.
+
+Theorem hamiltonian_no_deadlock : forall fx col P nblocks jmk, 1 <= P ->
+  let trace := fun r => ham_prepare_trace fx World nblocks jmk r ++ ham_compute_trace fx World nblocks jmk r in
+  forall pre st, coll_run col P pre trace = Some st ->
+  completable col P st /\
+  (finished P st \/ exists cm st', coll_step col P cm st = Some st') /\
+  length pre <= remaining P trace.
+Proof.
+  intros fx col P nblocks jmk HP trace.
+  apply uniform_no_deadlock with (t := trace 0); [exact HP|reflexivity|].
+  assert (Hs : on_comm World (skel_run fx World)).
+  { intros e H. apply skel_run_comms in H. destruct H; assumption. }
+  unfold trace, ham_prepare_trace, ham_compute_trace.
+  repeat apply on_comm_app; try exact Hs.
+  - intros e [H|[]]. subst e. reflexivity.
+  - intros e H. apply in_map_iff in H. destruct H as [p [E _]]. subst e. reflexivity.
+  - intros e [H|[]]. subst e. reflexivity.
+  - intros e H. apply in_flat_map in H. destruct H as [p [_ [E|[E|[]]]]]; subst e; reflexivity.
+Qed.
+
 (** ** The original code (all three repairs off): machine-checked counter-examples *)
 
 Definition one_part : component := mkcomp false 1.
@@ -1018,12 +1286,188 @@ Qed.
 
 End OMPProofs.
 
+(** ** OpenMP loop at the grain of shared-memory accesses *)
+
+Section OMPMicro.
+Variable V : Type.
+Variable add : V -> V -> V.
+Variable val : nat -> V.
+
+Notation iter := (iter V add val).
+Notation run_schedule := (run_schedule V add val).
+Notation tstate := (tstate V).
+
+Lemma set_thread_split : forall (T1 T2 : list tstate) ts ts',
+  set_thread V (T1 ++ ts :: T2) (length T1) ts' = T1 ++ ts' :: T2.
+Proof.
+  intros T1. induction T1 as [|x T1 IH]; intros T2 ts ts'; [reflexivity|]. simpl. f_equal. apply IH.
+Qed.
+
+Lemma nth_error_other_split : forall (T1 T2 : list tstate) ts ts' t' y, t' <> length T1 ->
+  nth_error (T1 ++ ts :: T2) t' = Some y ->
+  nth_error (T1 ++ ts' :: T2) t' = Some y /\ (In y T1 \/ In y T2).
+Proof.
+  intros T1 T2 ts ts' t' y Hne H. destruct (Nat.lt_ge_cases t' (length T1)) as [Hlt|Hge].
+  - rewrite nth_error_app1 in * by exact Hlt. split; [exact H|]. left. eapply nth_error_In. exact H.
+  - rewrite nth_error_app2 in * by exact Hge.
+    destruct (t' - length T1) as [|m] eqn:E; [lia|]. simpl in *. split; [exact H|]. right. eapply nth_error_In. exact H.
+Qed.
+
+Lemma concat_fst_split : forall (T1 T2 : list tstate) ts,
+  concat (map fst (T1 ++ ts :: T2)) = concat (map fst T1) ++ fst ts ++ concat (map fst T2).
+Proof. intros T1 T2 ts. rewrite map_app, concat_app. reflexivity. Qed.
+
+Lemma head_in_concat : forall (T : list tstate) w rest o, In (w :: rest, o) T -> In w (concat (map fst T)).
+Proof.
+  intros T w rest o H. apply in_concat. exists (w :: rest). split; [|left; reflexivity].
+  apply in_map_iff. exists (w :: rest, o). split; [reflexivity|exact H].
+Qed.
+
+Lemma iter_out_of_range : forall d w, nth_error d w = None -> iter d w = d.
+Proof. intros d w H. unfold SplitComm.iter. rewrite H. reflexivity. Qed.
+
+(** the invariant: every iteration still to be done is in exactly one thread's list; a value read by a thread that
+    has not written yet is still the value of the cell (nobody else touches that cell); executing what is left
+    sequentially from the current table gives the sequential result *)
+Definition omp_inv (target : list V) (st : list V * list tstate) : Prop :=
+  NoDup (concat (map fst (snd st))) /\
+  (forall t w rest x, nth_error (snd st) t = Some (w :: rest, Some x) -> nth_error (fst st) w = Some x) /\
+  run_schedule (concat (map fst (snd st))) (fst st) = target.
+
+Lemma omp_inv_step : forall target st t, omp_inv target st -> omp_inv target (par_step V add val st t).
+Proof.
+  intros target [d ths] t [Hnd [Hpend Hrun]]. unfold par_step. simpl fst in *. simpl snd in *.
+  destruct (nth_error ths t) as [ts|] eqn:Et; [|repeat split; assumption].
+  destruct (nth_error_split ths t Et) as [T1 [T2 [Eths Elen]]]. subst ths t.
+  destruct ts as [[|w rest] o]; [destruct o; simpl; repeat split; assumption|].
+  rewrite concat_fst_split in Hnd, Hrun. simpl fst in Hnd, Hrun.
+  set (l1 := concat (map fst T1)) in *. set (l2 := concat (map fst T2)) in *.
+  assert (Hother : forall t' w' rest' o', t' <> length T1 ->
+            nth_error (T1 ++ (w :: rest, o) :: T2) t' = Some (w' :: rest', o') -> w' <> w).
+  { intros t' w' rest' o' Hne H. destruct (nth_error_other_split T1 T2 _ (rest, None) t' _ Hne H) as [_ Hin].
+    assert (Hw' : In w' (l1 ++ rest ++ l2)).
+    { destruct Hin as [Hin|Hin]; apply head_in_concat in Hin; apply in_or_app; [left; exact Hin|right; apply in_or_app; right; exact Hin]. }
+    apply NoDup_remove_2 in Hnd. intro E. subst w'. contradiction. }
+  assert (Hdrop : forall d', run_schedule (l1 ++ rest ++ l2) (iter d' w) = run_schedule (l1 ++ (w :: rest) ++ l2) d').
+  { intros d'. change (run_schedule (l1 ++ rest ++ l2) (iter d' w)) with (run_schedule (w :: l1 ++ rest ++ l2) d').
+    apply omp_schedule_independent. apply Permutation_middle. }
+  destruct o as [x|].
+  - (* write *)
+    simpl micro_step. cbv beta iota. rewrite set_thread_split.
+    assert (Ex : nth_error d w = Some x).
+    { apply (Hpend (length T1) w rest x). rewrite nth_error_app2, Nat.sub_diag by lia. reflexivity. }
+    assert (Ei : set_nth V d w (add x (val w)) = iter d w) by (unfold SplitComm.iter; rewrite Ex; reflexivity).
+    split; [|split]; simpl fst; simpl snd.
+    + rewrite concat_fst_split. simpl fst. apply NoDup_remove_1 in Hnd. exact Hnd.
+    + intros t' w' rest' x' H. destruct (Nat.eq_dec t' (length T1)) as [->|Hne].
+      * rewrite nth_error_app2, Nat.sub_diag in H by lia. simpl in H. inversion H.
+      * destruct (nth_error_other_split T1 T2 (rest, None) (w :: rest, Some x) t' _ Hne H) as [H' _].
+        rewrite nth_error_set_nth_other; [apply (Hpend t' w' rest' x' H')|].
+        intro E. apply (Hother t' w' rest' (Some x') Hne H'). symmetry. exact E.
+    + rewrite concat_fst_split. simpl fst. rewrite Ei. rewrite Hdrop. exact Hrun.
+  - simpl micro_step. destruct (nth_error d w) as [x|] eqn:Ex; cbv beta iota; rewrite set_thread_split;
+      (split; [|split]); simpl fst; simpl snd.
+    + (* read *) rewrite concat_fst_split. exact Hnd.
+    + intros t' w' rest' x' H. destruct (Nat.eq_dec t' (length T1)) as [->|Hne].
+      * rewrite nth_error_app2, Nat.sub_diag in H by lia. simpl in H. inversion H. subst. exact Ex.
+      * destruct (nth_error_other_split T1 T2 (w :: rest, Some x) (w :: rest, None) t' _ Hne H) as [H' _].
+        apply (Hpend t' w' rest' x' H').
+    + rewrite concat_fst_split. exact Hrun.
+    + (* iteration index outside the table: skipped *)
+      rewrite concat_fst_split. simpl fst. apply NoDup_remove_1 in Hnd. exact Hnd.
+    + intros t' w' rest' x' H. destruct (Nat.eq_dec t' (length T1)) as [->|Hne].
+      * rewrite nth_error_app2, Nat.sub_diag in H by lia. simpl in H. inversion H.
+      * destruct (nth_error_other_split T1 T2 (rest, None) (w :: rest, None) t' _ Hne H) as [H' _].
+        apply (Hpend t' w' rest' x' H').
+    + rewrite concat_fst_split. simpl fst. rewrite <- (iter_out_of_range d w Ex) at 1. rewrite Hdrop. exact Hrun.
+Qed.
+
+Lemma threads_done_nil : forall ths : list tstate, threads_done V ths = true -> concat (map fst ths) = [].
+Proof.
+  intros ths. induction ths as [|[l o] ths IH]; intros H; [reflexivity|]. simpl in H.
+  apply andb_prop in H. destruct H as [H1 H2]. destruct l; [|discriminate]. simpl. apply IH. exact H2.
+Qed.
+
+(** C06 omp_schedule_independent at the grain of reads and writes: the iterations are distributed over any number
+    of threads in any way (every iteration to exactly one thread), the threads' reads and writes of the shared
+    table are interleaved in any way by the scheduler; once all threads are done the table is the one the
+    sequential loop over the same iterations produces. *)
+Theorem omp_interleaving_independent : forall (chunks : list (list nat)) (d : list V) (choices : list nat),
+  NoDup (concat chunks) ->
+  threads_done V (snd (par_run V add val choices d chunks)) = true ->
+  fst (par_run V add val choices d chunks) = run_schedule (concat chunks) d.
+Proof.
+  intros chunks d choices Hnd Hdone.
+  assert (Hinv : omp_inv (run_schedule (concat chunks) d) (par_run V add val choices d chunks)).
+  { clear Hdone. unfold par_run.
+    assert (H0 : omp_inv (run_schedule (concat chunks) d) (d, map (fun c : list nat => (c, @None V)) chunks)).
+    { unfold omp_inv. simpl fst. simpl snd. rewrite map_map. simpl. rewrite map_id. split; [exact Hnd|]. split; [|reflexivity].
+      intros t w rest x H. rewrite nth_error_map in H. destruct (nth_error chunks t); simpl in H; inversion H. }
+    revert H0. generalize (d, map (fun c : list nat => (c, @None V)) chunks).
+    induction choices as [|t choices IH]; intros st H0; [exact H0|]. simpl. apply IH. apply omp_inv_step. exact H0. }
+  destruct Hinv as [_ [_ Hrun]]. rewrite (threads_done_nil _ Hdone) in Hrun. simpl in Hrun. exact Hrun.
+Qed.
+
+(** the scheduler can always finish: letting every thread run to its end one after the other is a valid choice
+    sequence (so the hypothesis [threads_done] above is satisfiable for every input) *)
+Lemma par_run_can_finish : forall (chunks : list (list nat)) (d : list V),
+  exists choices, threads_done V (snd (par_run V add val choices d chunks)) = true.
+Proof.
+  intros chunks d. unfold par_run.
+  assert (H : forall (T1 T2 : list tstate) d0, threads_done V T1 = true ->
+            exists choices, threads_done V (snd (fold_left (par_step V add val) choices (d0, T1 ++ T2))) = true).
+  { intros T1 T2. revert T1. induction T2 as [|ts T2 IH]; intros T1 d0 H1.
+    - exists []. simpl. rewrite app_nil_r. exact H1.
+    - (* run thread (length T1) to its end: measure = 2 * remaining iterations (+1 if nothing pending) *)
+      assert (Hone : forall n (l : list nat) o d1, 2 * length l <= n ->
+                exists choices d2, fold_left (par_step V add val) choices (d1, T1 ++ (l, o) :: T2) = (d2, T1 ++ ([], None) :: T2) \/
+                                   (l = [] /\ fold_left (par_step V add val) choices (d1, T1 ++ (l, o) :: T2) = (d2, T1 ++ (l, o) :: T2))).
+      { intros n. induction n as [|n IHn]; intros l o d1 Hn.
+        - destruct l; [|simpl in Hn; lia]. exists [], d1. right. split; reflexivity.
+        - destruct l as [|w rest]; [exists [], d1; right; split; reflexivity|].
+          destruct o as [x|].
+          + (* write, then continue *)
+            destruct (IHn rest None (set_nth V d1 w (add x (val w))) ltac:(simpl in Hn; lia)) as [ch [d2 Hc]].
+            exists (length T1 :: ch), d2. left. simpl fold_left. unfold par_step at 2. simpl fst. simpl snd.
+            rewrite nth_error_app2, Nat.sub_diag by lia. simpl nth_error. cbv beta iota. simpl micro_step. cbv beta iota.
+            rewrite set_thread_split. destruct Hc as [Hc|[E Hc]]; [exact Hc|]. subst rest. exact Hc.
+          + destruct (nth_error d1 w) as [x|] eqn:Ex.
+            * (* read, write, continue *)
+              destruct (IHn rest None (set_nth V d1 w (add x (val w))) ltac:(simpl in Hn; lia)) as [ch [d2 Hc]].
+              exists (length T1 :: length T1 :: ch), d2. left. simpl fold_left.
+              unfold par_step at 3. simpl fst. simpl snd.
+              rewrite nth_error_app2, Nat.sub_diag by lia. simpl nth_error. cbv beta iota. simpl micro_step. rewrite Ex. cbv beta iota.
+              rewrite set_thread_split.
+              unfold par_step at 2. simpl fst. simpl snd.
+              rewrite nth_error_app2, Nat.sub_diag by lia. simpl nth_error. cbv beta iota. simpl micro_step. cbv beta iota.
+              rewrite set_thread_split. destruct Hc as [Hc|[E Hc]]; [exact Hc|]. subst rest. exact Hc.
+            * destruct (IHn rest None d1 ltac:(simpl in Hn; lia)) as [ch [d2 Hc]].
+              exists (length T1 :: ch), d2. left. simpl fold_left. unfold par_step at 2. simpl fst. simpl snd.
+              rewrite nth_error_app2, Nat.sub_diag by lia. simpl nth_error. cbv beta iota. simpl micro_step. rewrite Ex. cbv beta iota.
+              rewrite set_thread_split. destruct Hc as [Hc|[E Hc]]; [exact Hc|]. subst rest. exact Hc. }
+      destruct ts as [l o]. destruct (Hone (2 * length l) l o d0 (le_n _)) as [ch [d2 Hc]].
+      assert (Hfin : exists o', fold_left (par_step V add val) ch (d0, T1 ++ (l, o) :: T2) = (d2, T1 ++ ([], o') :: T2)).
+      { destruct Hc as [Hc|[E Hc]]; [exists None; exact Hc|]. subst l. exists o. exact Hc. }
+      destruct Hfin as [o' Hfin].
+      destruct (IH (T1 ++ [([], o')]) d2) as [ch2 H2].
+      { unfold threads_done in *. rewrite forallb_app. apply andb_true_intro. split; [exact H1|reflexivity]. }
+      exists (ch ++ ch2). rewrite fold_left_app.
+      match goal with |- context [fold_left ?f ch ?i] =>
+        replace (fold_left f ch i) with (d2, T1 ++ ([], o') :: T2) by (symmetry; exact Hfin) end.
+      rewrite <- app_assoc in H2. exact H2. }
+  destruct (H [] (map (fun c : list nat => (c, @None V)) chunks) d eq_refl) as [choices Hc].
+  exists choices. exact Hc.
+Qed.
+
+End OMPMicro.
+
 (* ======================================================================================================= *)
 (** * Summary theorems for computeAll_split *)
 
 (** Everything C06 asks of computeAll_split, for a variant [fx] of the code and a family of colourings [mk]
     (the colouring depends on P and on the number of components):
-      - every communicator sees one sequence of collectives, and the blocking run completes;
+      - every communicator sees one sequence of collectives; in the blocking semantics, under any order in which
+        communicators proceed, no deadlock is reachable, every reachable state can be completed, runs are finite;
       - for every component whose job map names ranks of its colour's communicator (C16 final_state):
         the sender is rank 0 of the colour's communicator; the returned table is the full sum, the same on every
         rank; without purging, the component can be evaluated on every rank from its full term lists. *)
@@ -1031,8 +1475,9 @@ Definition split_correct_for (fx : fixes) (mk : nat -> nat -> colouring) (P : na
   forall (comps : list component) (clear fne : bool) (jm : nat -> nat -> nat),
   let col := mk P (length comps) in
   collectives_match col P (split_trace fx col P comps clear jm) /\
-  (exists sched st', coll_run col P sched (split_trace fx col P comps clear jm) = Some st' /\
-                     forall r, r < P -> st' r = []) /\
+  (forall pre st, coll_run col P pre (split_trace fx col P comps clear jm) = Some st ->
+     completable col P st /\ (finished P st \/ exists cm st', coll_step col P cm st = Some st') /\
+     length pre <= remaining P (split_trace fx col P comps clear jm)) /\
   forall k c, nth_error comps k = Some c -> jm_in_range (jm k) (nparts c) (colour_size col P k) ->
     (In (sender fx col P k) (members col P (Colour (ecol col k))) /\
      local_rank col (Colour (ecol col k)) (sender fx col P k) = 0) /\
@@ -1049,7 +1494,7 @@ Proof.
   intros fx mk P Hfx HP Hinh comps clear fne jm. cbv zeta. subst fx.
   set (col := mk P (length comps)).
   split; [apply collectives_match_split; reflexivity|].
-  split; [apply split_run_completes; [reflexivity|exact HP]|].
+  split; [intros pre st; apply split_no_deadlock; [reflexivity|exact HP]|].
   intros k c Hk Hjm.
   assert (Hex : exists r, r < P /\ pcol col r = ecol col k).
   { apply (Hinh (length comps)). apply nth_error_Some. rewrite Hk. discriminate. }
@@ -1078,8 +1523,9 @@ Theorem split_repaired_float_checked : forall P comps, 1 <= P ->
   colours_ok_b (float_colouring P (length comps)) P (length comps) = true ->
   forall clear fne jm, let col := float_colouring P (length comps) in
   collectives_match col P (split_trace all_fixed col P comps clear jm) /\
-  (exists sched st', coll_run col P sched (split_trace all_fixed col P comps clear jm) = Some st' /\
-                     forall r, r < P -> st' r = []) /\
+  (forall pre st, coll_run col P pre (split_trace all_fixed col P comps clear jm) = Some st ->
+     completable col P st /\ (finished P st \/ exists cm st', coll_step col P cm st = Some st') /\
+     length pre <= remaining P (split_trace all_fixed col P comps clear jm)) /\
   forall k c, nth_error comps k = Some c -> jm_in_range (jm k) (nparts c) (colour_size col P k) ->
     (vanishing c = false -> 1 <= nparts c -> fne = true ->
        exists l, Permutation l (seq 0 (nparts c)) /\
@@ -1091,7 +1537,7 @@ Proof.
   intros P comps HP Hok clear fne jm. cbv zeta. set (col := float_colouring P (length comps)).
   apply colours_ok_b_spec in Hok. fold col in Hok.
   split; [apply collectives_match_split; reflexivity|].
-  split; [apply split_run_completes; [reflexivity|exact HP]|].
+  split; [intros pre st; apply split_no_deadlock; [reflexivity|exact HP]|].
   intros k c Hk Hjm.
   assert (Hex : exists r, r < P /\ pcol col r = ecol col k).
   { apply Hok. apply nth_error_Some. rewrite Hk. discriminate. }
@@ -1121,3 +1567,65 @@ Example split_correct_nontrivial_2 :
   map (fun r => map (fun kc => evaluable (snd kc) (fst kc)) (combine (split_state all_fixed col 5 comps false true jm r) comps)) (seq 0 5) =
     repeat [true; true] 5.
 Proof. vm_compute. repeat split. Qed.
+
+(* ======================================================================================================= *)
+(** * The variant of the code that is in /repo now *)
+
+(** [code_fixes] is what the translator reads off the source; these lemmas compile for either variant, their
+    hypothesis is discharged (by [reflexivity]) in props/Properties_C06_current.v exactly when the source is repaired. *)
+Lemma split_correct_of_code_exact : code_fixes = all_fixed ->
+  forall P, 1 <= P -> split_correct_for code_fixes exact_colouring P.
+Proof. intros E. rewrite E. exact split_repaired_exact. Qed.
+
+Lemma split_correct_of_code_float64 : code_fixes = all_fixed ->
+  forall P, 1 <= P <= 64 -> split_correct_for code_fixes float_colouring P.
+Proof. intros E. rewrite E. exact split_repaired_float64. Qed.
+
+(* ======================================================================================================= *)
+(** * Examples: the hypotheses of the theorems above are satisfiable by non-trivial values *)
+
+(** a component list with a job map in range, 5 ranks in 2 colours of sizes 3 and 2 (hypotheses of
+    tables_all_ranks_sum / terms_and_status_everywhere / reduce_root_is_sender) *)
+Example data_hypotheses_satisfiable :
+  let comps := [mkcomp false 3; mkcomp false 2] in
+  let col := float_colouring 5 (length comps) in
+  let jm := fun k p => p mod (colour_size col 5 k) in
+  (forall k c, nth_error comps k = Some c -> jm_in_range (jm k) (nparts c) (colour_size col 5 k)) /\
+  colours_inhabited col 5 (length comps).
+Proof.
+  cbv zeta. split.
+  - intros k c Hk p Hp. apply Nat.mod_upper_bound.
+    destruct k as [|[|k]]; [vm_compute; discriminate|vm_compute; discriminate|destruct k; discriminate].
+  - apply colours_ok_b_spec. vm_compute. reflexivity.
+Qed.
+
+(** unsplit: 3 ranks, parts spread round-robin (hypotheses of nosplit_root_has_sum / nosplit_terms_everywhere /
+    eigendata_identical) *)
+Example nosplit_hypotheses_satisfiable : jm_in_range (fun p => p mod 3) 7 3.
+Proof. intros p _. apply Nat.mod_upper_bound. discriminate. Qed.
+
+(** a reachable intermediate state of the blocking run (hypothesis of split_no_deadlock): after the world barrier,
+    the split and two steps of colour 1, 3 ranks / 3 components *)
+Lemma is_some_ex : forall A (o : option A), (match o with Some _ => true | None => false end) = true -> exists x, o = Some x.
+Proof. intros A [x|] H; [exists x; reflexivity|discriminate]. Qed.
+
+Example reachable_state_exists :
+  let comps := [one_part; one_part; one_part] in
+  let col := float_colouring 3 3 in
+  exists st, coll_run col 3 [World; World; Colour 1; Colour 1] (split_trace all_fixed col 3 comps true (fun _ _ => 0)) = Some st.
+Proof. cbv zeta. apply is_some_ex. vm_compute. reflexivity. Qed.
+
+(** OpenMP: 4 iterations on 2 threads ([0;2] and [1;3]), reads and writes interleaved; table of naturals *)
+Example omp_interleaving_example :
+  let chunks := [[0; 2]; [1; 3]] in
+  let d := [10; 20; 30; 40] in
+  let choices := [0; 1; 1; 0; 0; 1; 0; 1] in
+  NoDup (concat chunks) /\ Permutation (concat chunks) (seq 0 4) /\
+  threads_done nat (snd (par_run nat Nat.add S choices d chunks)) = true /\
+  fst (par_run nat Nat.add S choices d chunks) = [11; 22; 33; 44] /\
+  run_schedule nat Nat.add S (seq 0 4) d = [11; 22; 33; 44].
+Proof.
+  cbv zeta. split; [|split; [|split; [|split]]]; try reflexivity.
+  - simpl. repeat constructor; simpl; intuition discriminate.
+  - simpl. apply perm_skip. apply perm_swap.
+Qed.
